@@ -243,6 +243,9 @@ class Tokens(object):
         r = self.rng.random()
         if r < 0.62:
             return self.unique()
+        if r < 0.70:
+            # text that looks like a piece of the grammar (a grammar action must not mistake a value for a token)
+            return V.S(self.rng.choice(['(', ')', ',', ';', '{', '}', '"', '=', '&', ':', '\\', '-', '%', '.', '#N/A', 'TRUE', 'A1', ' ']))
         return self.rng.choice([V.I(0), V.FALSE, V.S(''), V.L(), V.NONE, V.F(0.0), V.TRUE, V.L(V.I(1), V.I(2))])
 
 
@@ -254,8 +257,10 @@ def _gen_script(rng, tok, kind, fault, extras):
             script.append({'a': 'raise', 'e': rng.choice(scen.BENIGN_EXC), 'm': 'boom'})
         elif r < 0.12 + (0.25 if fault else 0) and kind in ('callCellValue', 'callRangeValue'):
             script.append({'a': 'table'})
-        elif r < 0.5:
+        elif r < 0.46:
             script.append({'a': 'set', 'v': [tok.pick()]})
+        elif r < 0.5:
+            script.append({'a': 'set_in_thread', 'v': [tok.pick()]})
         elif r < 0.62:
             script.append({'a': 'set', 'v': [tok.pick(), tok.pick()]})
         elif r < 0.74:
@@ -378,7 +383,7 @@ class Model(object):
             if L['once'] and not self.full:
                 self.listeners[s][ev] = [x for x in self.listeners[s][ev] if x is not L]
             a = act['a']
-            if a == 'set':
+            if a in ('set', 'set_in_thread'):
                 for j in act['v']:
                     o = V.dec(j)
                     if o is not None:
